@@ -3,7 +3,7 @@ stable across restarts.  spec/commit/Commitments.tla + Hardfork.tla; binding: TL
 ordered lists, stored receipt containers, chain ids and of every transition of the restart model is replayed on the real digest
 writers, merkle roots, codecs and on ChainService.checkHardfork over a real ChainDB; a recorded random run of restarts is
 validated by TLC (HardforkTrace.tla)."""
-import hashlib, json, os, random, threading, time
+import json, os, random, threading, time
 import vlib
 
 LEVEL = "model_checking"
@@ -19,7 +19,8 @@ MANIFEST = dict(
          "8 concrete mutation styles, every list of <=4 (quick) / <=6 (thorough) entries over 3 elements with/without block bloom, every stored container "
          "shape, every chain id over a 2-letter alphabet incl. the separator) is replayed on types/account-key; every transition of the restart model on "
          "the real ChainService.checkHardfork + ChainDB (several concretisations of the abstract heights up to 2^64-1), with real receipts written and "
-         "read back across restarts; a long random run is validated by TLC against HardforkTrace.tla.",
+         "read back across restarts; a long random run is validated by TLC against HardforkTrace.tla; body variants that share a genuine block's identifier "
+         "(merkle padding) are delivered to a second real node before the genuine block.",
     note="model_checking of decision tables and of the restart machine; PARTIAL per DESIGN §7: fidelity of the codecs for arbitrary byte contents and "
          "collision resistance of sha256 are outside an explicit-state model - field contents are seeded samples (labelled 'sampled' in the evidence), "
          "shapes/lengths/presence are exhaustive; the variable-length concatenation of neighbouring header/tx fields without length prefixes is a "
@@ -51,7 +52,7 @@ def commit_input(trs):
         elif n == "StoreReceipts":
             codec.append(dict(fmt=a["fmt"], bloom=bool(a["bloom"]), rs=plain(a["rs"]), ok=bool(d["ok"])))
         elif n == "StoreChainId":
-            cids.append(dict(c=plain(a["c"]), ok=bool(d["ok"]), bytes=plain(d["bytes"])))
+            cids.append(dict(c=plain(a["c"]), stored=bool(d["stored"]), ok=bool(d["ok"]), bytes=plain(d["bytes"])))
     return muts, lists, codec, cids
 
 
@@ -101,19 +102,6 @@ def run(c):
                      "TLC 1.8.0"]
     box = {}
     threads = []
-
-    # The harnesses of this check are built concurrently.  vlib.gen_overlay rewrites <BUILD>/overlay.json on every call, so a
-    # `go test -c` of one thread could read the file while another thread (or another check) truncates it.  This check
-    # therefore uses an overlay of its own, generated once per run (helper kept here; tools/vlib.py is not changed).
-    vlib.BUILD = os.path.join(vlib.WORK, "build-c19-" + hashlib.sha1(vlib.REPO.encode()).hexdigest()[:10])
-    orig_gen, gen_lock, gen_done = vlib.gen_overlay, threading.Lock(), {}
-
-    def gen_once():
-        with gen_lock:
-            if "p" not in gen_done:
-                gen_done["p"] = orig_gen()
-            return gen_done["p"]
-    vlib.gen_overlay = gen_once
 
     def bg(key, fn):
         def w():
@@ -175,7 +163,7 @@ def run(c):
     nmaps = len(height_maps(c.tier, random.Random(0), [0, 2, 3]))
 
     def node_side():
-        """thorough tier: block bodies that share the identifier of a genuine block, delivered to a real node"""
+        """block bodies that share the identifier of a genuine block, delivered to a real node (needs no TLC input)"""
         return [("internal/verifnode", go("./internal/verifnode/", "^TestVerifC19BodyId$", {"VERIF_OUT": os.path.join(c.work, "bodyid_out.json")}, 1500))]
 
     def hardfork_side():
@@ -188,10 +176,9 @@ def run(c):
                        runs=40 if thorough else 10, run_len=100 if thorough else 50), open(hin, "w"))
         runs = [("chain", go("./chain/", "^TestVerifHardfork$", {"VERIF_IN": hin, "VERIF_OUT": os.path.join(c.work, "hardfork_out.json"),
                                                                  "VERIF_TRACE": tracepath}, 2400))]
-        if thorough:        # what a real node does with a body that shares the genuine block's identifier
-            runs += node_side()
         return gen2, T, runs
 
+    t_n = bg("node", node_side)
     t_a = bg("commit", commit_side)
     t_b = bg("hardfork", hardfork_side)
     # the design-level runs do not feed anything: they follow one another on a third thread
@@ -200,7 +187,7 @@ def run(c):
         m2 = vlib.tlc(SPEC_DIR, "MC_Hardfork", mc2, os.path.join(c.work, "mc2"), workers=2, timeout=2400, heap="3g", java_opts=JOPTS)
         return m1, m2
     t_m = bg("mc", design)
-    threads += [t_a, t_b, t_m]
+    threads += [t_n, t_a, t_b, t_m]
 
     def absorb(runs):
         for name, (rc, output, o, wall) in runs:
@@ -227,6 +214,9 @@ def run(c):
         if nstart < 20000 or not any(e["act"] == "AddBlock" for e in T):
             raise vlib.Infra("restart transitions incomplete: %d Start" % nstart)
         absorb(runs2)
+
+        # ---- 2b. what a real node does with a body that shares the genuine block's identifier
+        absorb(need("node", t_n))
 
         # ---- 3. the design-level runs
         m1, m2 = need("mc", t_m)
